@@ -1,7 +1,8 @@
 """C11 — tag scanning sees through embedded structs and touches nothing else.
 
 Generates struct shapes (embedded / named / pointer / tagged structs at any depth, exported and unexported fields
-and types, every tag kind plus foreign tags), builds them as real Go types (reflect.StructOf in volume, generated
+and types, every tag kind plus foreign tags - about half of them look-alikes of a recognised tag: keys that end in / start
+with / contain / differ in case from its name, values whose text contains `<tag>:`), builds them as real Go types (reflect.StructOf in volume, generated
 static source for what reflect cannot build: embedded structs of unexported type, embedded types with methods),
 registers them in a REAL App together with a recording user tag processor, snapshots every field before and after
 Run, and evaluates model and oracle in Coq (Corr/Check_C11.v)."""
@@ -25,8 +26,9 @@ MANIFEST = {
     "design_ref": "DESIGN.md 5 C11",
     "note": "trusted: Coq kernel + vm_compute; hand-written model of scanFields, reflect's CanSet flags and the tag-scan "
             "processor; Go harness (reflect.StructOf + generated static types, unsafe read access to unexported fields) and "
-            "Python generators; tag values/arguments are generated in the comma/space grammar without quoting (the full "
-            "grammar is C19's); the registered processors' Tag/Required/ExtractHandler are read back from the running App",
+            "Python generators; values/arguments of RECOGNISED tags are generated in the comma/space grammar without quoting (the full "
+            "grammar is C19's), foreign tags also carry keys built around recognised tag names and values with (escaped) quotes "
+            "and `<tag>:` text; the registered processors' Tag/Required/ExtractHandler are read back from the running App",
     "technique": "Rocq proof (structural induction over a nested inductive with a hand-written induction principle) + vm_compute "
                  "correspondence against the Go implementation + metamorphic check (shape vs flattening) on the implementation",
 }
@@ -45,6 +47,11 @@ PROPKEY = {"int": "c11.i", "string": "c11.s", "bool": "c11.b", "float": "c11.f"}
 FOREIGN = [("json", "x"), ("yaml", "y"), ("inject", "z"), ("mapstructure", "q"), ("wired", ""), ("values", "42"),
            ("Wire", "")]
 CFGA_PREFIX = "c11.cfga"
+# every tag some registered processor scans for: the built-in ones and the two user-registered scanners of the driver
+RECOGNISED = ("wire", "func", "value", "prop", "prefix", "logger", "rec", "aux")
+# what people put around a tag name: other libraries' keys such as nowire / default_value / table_prefix / audit_logger / bookmark
+KEY_HEADS = ["no", "x", "my", "un", "default_", "table_", "audit_", "old-", "db.", "_", "re", "auto"]
+KEY_TAILS = ["d", "s", "2", "_x", "r", "-old", ".v", "_", "Of", "ing"]
 
 
 # ------------------------------------------------------------------------------------------------
@@ -60,13 +67,14 @@ def mk_tag(key, val, args=None):
 
 
 def raw_tag(t):
+    """key:"value" in the conventional struct tag format: the value is a Go string literal (quotes and backslashes escaped)"""
     s = t["val"]
     for n, vs in t["args"]:
         if vs == [""]:
             s += "," + n
         else:
             s += "," + n + "=" + " ".join(vs)
-    return '%s:"%s"' % (t["key"], s)
+    return '%s:"%s"' % (t["key"], s.replace("\\", "\\\\").replace('"', '\\"'))
 
 
 def raw_tags(tags):
@@ -119,9 +127,91 @@ def recognised_tags(rng, kind):
     raise ValueError(kind)
 
 
+def mixed_case(rng, t):
+    """the tag name in another spelling of the same letters: Wire, WIRE, wIRE, wirE ..."""
+    while True:
+        c = rng.choice([t.upper(), t.capitalize(), t[0] + t[1:].upper(), t[:-1] + t[-1].upper(),
+                        "".join(ch.upper() if rng.random() < 0.5 else ch for ch in t)])
+        if c != t:
+            return c
+
+
+def lookalike_key(rng):
+    """a FOREIGN tag key built around the name of a recognised tag: ends in it (nowire, default_value, table_prefix), starts
+    with it (wired, values), contains it (myprops), or differs from it only in case (Wire, VALUE)"""
+    t = rng.choice(RECOGNISED)
+    form = rng.choice(["ends", "ends", "ends", "starts", "contains", "case", "case_ends"])
+    if form == "ends":
+        k = rng.choice(KEY_HEADS) + t
+    elif form == "starts":
+        k = t + rng.choice(KEY_TAILS)
+    elif form == "contains":
+        k = rng.choice(KEY_HEADS) + t + rng.choice(KEY_TAILS)
+    elif form == "case":
+        k = mixed_case(rng, t)
+    else:
+        k = rng.choice(KEY_HEADS) + mixed_case(rng, t)
+    assert k not in RECOGNISED
+    return k
+
+
+def lookalike_value(rng):
+    """a tag VALUE whose text reads like a recognised tag: `doc:"see wire:\"x\""`, `json:"value:"`, `note:"prefix:c11.cfg"`"""
+    t = rng.choice(RECOGNISED)
+    inner = rng.choice(["", "x", "c11.cfg", "42", "Ping"])
+    return rng.choice(["%s:" % t,                                  # the raw text continues with the closing quote: wire:"
+                       "a %s:" % t,
+                       '%s:"%s"' % (t, inner),                     # a whole quoted pair inside the value (escaped quotes)
+                       'see %s:"%s" there' % (t, inner),
+                       '%s:"%s' % (t, inner),                      # an unbalanced quote
+                       "%s:%s" % (t, inner or "x"),                # no quotes at all
+                       '"%s:"' % t,
+                       "%s" % t])
+
+
 def foreign_tags(rng):
-    k = rng.choice([1, 1, 2])
-    return [mk_tag(a, b) for a, b in rng.sample(FOREIGN, k)]
+    """1-2 tags no registered processor scans for.  About half of them are look-alikes of a recognised tag: in the key, in
+    the value, or both"""
+    out = []
+    for a, b in rng.sample(FOREIGN, rng.choice([1, 1, 2])):
+        r = rng.random()
+        if r < 0.30:
+            a = lookalike_key(rng)
+        elif r < 0.45:
+            b = lookalike_value(rng)
+        elif r < 0.52:
+            a, b = lookalike_key(rng), lookalike_value(rng)
+        out.append(mk_tag(a, b))
+    if len(out) == 2 and out[0]["key"] == out[1]["key"]:
+        out.pop()
+    return out
+
+
+def foreign_classes(t):
+    """which look-alike classes a foreign tag falls in (decided on its text, per recognised tag name)"""
+    key, raw = t["key"], raw_tag(t)
+    val = raw[len(key) + 1:]
+    out = set()
+    for r in RECOGNISED:
+        if key.endswith(r):
+            out.add("key_ends_in_tag_name")
+        elif key.startswith(r):
+            out.add("key_starts_with_tag_name")
+        elif r in key:
+            out.add("key_contains_tag_name")
+        elif key.lower() == r:
+            out.add("key_differs_in_case_only")
+        elif r in key.lower():
+            out.add("key_contains_tag_name_in_other_case")
+        if r + ':"' in val:
+            out.add("value_text_contains_tag_colon_quote")
+        elif r + ':\\"' in val:
+            out.add("value_text_contains_tag_colon_escaped_quote")
+        elif r + ":" in val:
+            out.add("value_text_contains_tag_colon")
+        elif r in val:
+            out.add("value_text_contains_tag_name")
+    return sorted(out) or ["plain"]
 
 
 # ------------------------------------------------------------------------------------------------
@@ -697,9 +787,45 @@ def stats(cases):
     depth_hist = {}
     kinds = {}
 
+    foreign = {"tags_by_class": {}, "lookalike_tags_by_field_kind": {}, "lookalike_tags_by_embedding_depth": {},
+               "lookalike_tags_next_to_a_recognised_tag": 0, "lookalike_tags_by_recognised_name": {},
+               "cases_with_a_lookalike": 0, "cases_with_a_lookalike_key_ending_in_a_tag_name": 0,
+               "cases_with_a_value_containing_tag_colon_quote": 0}
+    flags = set()
+
+    def note_foreign(s, depth):
+        for t in s["tags"]:
+            if t["key"] in RECOGNISED:
+                continue
+            cl = foreign_classes(t)
+            for c in cl:
+                foreign["tags_by_class"][c] = foreign["tags_by_class"].get(c, 0) + 1
+            if cl == ["plain"]:
+                continue
+            flags.add("any")
+            if "key_ends_in_tag_name" in cl:
+                flags.add("ends")
+            if "value_text_contains_tag_colon_quote" in cl:
+                flags.add("vq")
+            kind = s["k"] if s["k"] != "struct" else (
+                "struct:" + ("ptr-embedded" if s["anon"] and s["ptr"] else "tagged-embedded" if s["anon"] else
+                             "named-ptr" if s["ptr"] else "named"))
+            if not s["e"]:
+                kind += "(unexported)"
+            for d, k in ((foreign["lookalike_tags_by_field_kind"], kind), (foreign["lookalike_tags_by_embedding_depth"], depth)):
+                d[k] = d.get(k, 0) + 1
+            raw = raw_tag(t).lower()
+            for r in RECOGNISED:
+                if r in raw:
+                    d = foreign["lookalike_tags_by_recognised_name"]
+                    d[r] = d.get(r, 0) + 1
+            if any(x["key"] in RECOGNISED for x in s["tags"]):
+                foreign["lookalike_tags_next_to_a_recognised_tag"] += 1
+
     def walk(shape, depth):
         dmax = depth
         for s in shape:
+            note_foreign(s, depth)
             if s["k"] == "struct":
                 v = ("entered" if is_entered(s) else
                      "ptr-embedded" if s["anon"] and s["ptr"] else
@@ -711,8 +837,7 @@ def stats(cases):
                 dmax = max(dmax, walk(s["fs"], depth + 1))
             else:
                 for t in s["tags"] or [{"key": "(untagged)"}]:
-                    k = t["key"] if t["key"] in ("wire", "func", "value", "prop", "prefix", "logger", "rec", "aux",
-                                                 "(untagged)") else "(foreign)"
+                    k = t["key"] if t["key"] in RECOGNISED + ("(untagged)",) else "(foreign)"
                     kinds[k] = kinds.get(k, 0) + 1
                 if not s["e"]:
                     kinds["(unexported field)"] = kinds.get("(unexported field)", 0) + 1
@@ -727,8 +852,12 @@ def stats(cases):
            "cases_with_occurrences_at_different_depths": 0,
            "max_entered_occurrences_of_one_type": 0}
     for c in cases:
+        flags.clear()
         d = walk(c["shape"], 0)
         depth_hist[d] = depth_hist.get(d, 0) + 1
+        foreign["cases_with_a_lookalike"] += "any" in flags
+        foreign["cases_with_a_lookalike_key_ending_in_a_tag_name"] += "ends" in flags
+        foreign["cases_with_a_value_containing_tag_colon_quote"] += "vq" in flags
         r = repeated_types(c)
         if r["any"]:
             rep["cases_with_a_struct_type_at_several_positions"] += 1
@@ -742,11 +871,9 @@ def stats(cases):
         rep["max_entered_occurrences_of_one_type"] = max(rep["max_entered_occurrences_of_one_type"], r["max"])
     return {"struct_variants": variants, "embedding_depth": depth_hist, "leaf_tags": kinds,
             "repeated_embedded_types": rep,
+            "foreign_tags_that_look_like_recognised_ones": foreign,
             "static_types_cases": sum(1 for c in cases if c["static"]),
             "structof_cases": sum(1 for c in cases if not c["static"])}
-
-
-RECOGNISED = ("wire", "func", "value", "prop", "prefix", "logger", "rec", "aux")
 
 
 def repeated_types(case):
@@ -853,6 +980,6 @@ def run(ctx):
     }
     return vlib.decide(ctx, static_ok and all(o[1] for o in ctx.obligations), by_id, M, V, cov, widen=widen, shrink=shrink,
                        assumptions=["sibling fields have distinct names (wf_comp; Go rejects other structs), re-checked per case",
-                                    "tag values and arguments are generated without quotes/brackets; the tag grammar is C19's",
+                                    "values and arguments of recognised tags are generated without quotes/brackets; the tag grammar is C19's",
                                     "every generated recognised tag is satisfiable and writes a non-zero value, so the set of "
                                     "changed fields must equal the model's footprint exactly"])
